@@ -324,10 +324,44 @@ pub fn run(rep: &mut Report) {
                 two files (a level that sums children) or a file without lines (zero total); distinct = distinct \
                 canonical request text"
         .to_string();
+    rep.notes.push(
+        "floating point is not modelled: the model gives exact rationals and each printed figure must lie within \
+         half a unit of the last printed place (+1e-9 for f64 formats, +2e-5 for markdown's f32; cobertura 1e-12, \
+         ade 1e-6) of it; the badge is compared as the truncated integer. Result sets have pairwise distinct \
+         paths (a repeated path is C12's subject)."
+            .to_string(),
+    );
     let mut ctx = Ctx {
         env: Env::new(&rep.workdir),
         shrunk: BTreeMap::new(),
     };
+    // corpus first: minimised past failures (corpus/C13/*.json); each must hold on the current tree
+    let mut corpus: Vec<std::path::PathBuf> = std::fs::read_dir("/verif/corpus/C13")
+        .map(|rd| rd.flatten().map(|e| e.path()).filter(|p| p.extension().map(|x| x == "json").unwrap_or(false)).collect())
+        .unwrap_or_default();
+    corpus.sort();
+    for p in corpus {
+        let parsed = std::fs::read_to_string(&p).ok().and_then(|t| serde_json::from_str::<serde_json::Value>(&t).ok());
+        let Some((case, writer)) = parsed.as_ref().and_then(|v| case_from_json(&v["case"])) else {
+            rep.notes.push(format!("corpus file {} is not a C13 case", p.display()));
+            continue;
+        };
+        let Some(w) = WRITERS.iter().find(|w| **w == writer).copied() else { continue };
+        let o = observe(&ctx.env, &case, w);
+        let req = request(&ctx.env, w, &case);
+        rep.case(&req, true);
+        rep.count("corpus.cases");
+        let m = run_model_named("gm_c13", &[req], &rep.workdir, "corpus");
+        if !o.ofails.is_empty() {
+            report_ofails(rep, &mut ctx, &case, w, &o.ofails, false);
+        }
+        if o.ofails.iter().all(|f| f.finding.is_some()) {
+            if let Some(why) = agree(w, &m[0], &o.canon, &case) {
+                disagreement(rep, &mut ctx, &case, w, why, &m[0], &o.canon, false);
+            }
+        }
+    }
+
     let mut rng = Rng::new(rep.seed ^ 0xC13);
     let n = rep.budget(1_600, 12);
     let html_every = 4;
